@@ -35,8 +35,8 @@ func callsParamDirectly(g *ssa.Function) bool {
 	return false
 }
 
-// polymorphicHelper: an unexported function with a parameter of an unexported interface type declared in the
-// repository, on which it invokes a method: a block shared between call sites whose argument has a different static
+// polymorphicHelper: an unexported function with a parameter of an interface type declared in the repository
+// (`frameWriter`, `ReadWriterContext`), on which it invokes a method: a block shared between call sites whose argument has a different static
 // type (`writeFrame(ctx, w frameWriter, v)` used with the service's ReadWriterContext and the client's *ctxio.Conn). It
 // is analysed at each call site, where that type is known.
 func polymorphicHelper(p *Prog, g *ssa.Function) bool {
@@ -45,7 +45,7 @@ func polymorphicHelper(p *Prog, g *ssa.Function) bool {
 	}
 	for _, prm := range g.Params {
 		nt, ok := prm.Type().(*types.Named)
-		if !ok || nt.Obj().Exported() || nt.Obj().Pkg() == nil || p.Pkgs[nt.Obj().Pkg().Path()] == nil {
+		if !ok || nt.Obj().Pkg() == nil || p.Pkgs[nt.Obj().Pkg().Path()] == nil {
 			continue
 		}
 		if _, isIface := nt.Underlying().(*types.Interface); !isIface {
